@@ -524,6 +524,7 @@ def regen(ctx, names, group=None):
                     ctx.coq_make(tgt, timeout=900)
     res["wall_s"] = round(time.time() - t0, 2)
     ctx.cov["regeneration_tie"] = res
+    ctx.cov.setdefault("regeneration_ties", []).append(res)      # a check may call regen more than once (C03: Int60, then the hashmap)
     ctx.notes.append("regeneration tie: %s; %s (%.1f s)" % (
         ", ".join("%s %s" % kv for kv in res["units"].items()),
         ", ".join("%s %s" % (p["file"], "ok" if p["ok"] else "BROKEN") for p in res["props"]), res["wall_s"]))
